@@ -15,7 +15,9 @@ use std::cell::RefCell;
 use std::io::{BufRead, BufReader, Write};
 use std::process::{Child, ChildStdin, ChildStdout, Command, Stdio};
 
-pub const ORACLE_EXE: &str = "/verif/harness/target/release/fv";
+pub fn oracle_exe() -> String {
+    format!("{}/harness/target/release/fv", crate::util::root())
+}
 
 /// serial side: one JSON case per line in, one line out
 pub fn oracle_loop() {
@@ -54,13 +56,13 @@ fn ask_oracle(c: &EncCase) -> Result<String, String> {
     ORACLE.with(|o| {
         let mut o = o.borrow_mut();
         if o.is_none() {
-            let mut child = Command::new(ORACLE_EXE)
+            let mut child = Command::new(oracle_exe())
                 .arg("oracle-encode")
                 .stdin(Stdio::piped())
                 .stdout(Stdio::piped())
                 .stderr(Stdio::null())
                 .spawn()
-                .map_err(|e| format!("cannot start the serial oracle {ORACLE_EXE}: {e}"))?;
+                .map_err(|e| format!("cannot start the serial oracle {}: {e}", oracle_exe()))?;
             let stdin = child.stdin.take().ok_or("no stdin")?;
             let stdout = BufReader::new(child.stdout.take().ok_or("no stdout")?);
             *o = Some(Oracle { _child: child, stdin, stdout });
@@ -218,8 +220,8 @@ pub fn run(ctx: &Ctx) {
         ctx.infra("C18 must be run from the harness build with feature `par`");
         return;
     }
-    if !std::path::Path::new(ORACLE_EXE).exists() {
-        ctx.infra(format!("serial oracle binary {ORACLE_EXE} is missing (build the release profile first)"));
+    if !std::path::Path::new(&oracle_exe()).exists() {
+        ctx.infra(format!("serial oracle binary {} is missing (build the release profile first)", oracle_exe()));
         return;
     }
     ctx.regress(&Parallel);
